@@ -402,7 +402,8 @@ def apply_fault(lines, f, sc):
         body = [j for j, l in enumerate(lines) if l.startswith(('DATA ', 'IGNORE ', 'DIST '))]
         if body:
             j = body[a % len(body)]
-            lines[j] = lines[j] + '\x00' * (1 + b % 3)
+            # (gpg leaves the whole trailing run of blanks, tabs, CRs and NULs out of the hash, in any mixture)
+            lines[j] = lines[j] + '\x00' * (1 + b % 3) + ('', ' ', '\t', ' \x00\t ', '\r')[(b // 3) % 5]
     elif k == 'lead-blank':
         lines.insert(0, '')
     elif k == 'trail-blank':
